@@ -850,20 +850,10 @@ theorem strip_pre {pc : List Nat} {t t' : Text} (h : SepPre pc t t') (E : Env) (
 theorem lower_pre {pc : List Nat} {t t' : Text} (h : SepPre pc t t') (E : Env)
     (hup : ∀ c ∈ pc, E.U.isUppercase c = false) :
     ∃ pc', pc'.length = pc.length ∧ SepPre pc' (t.lower E) (t'.lower E) := by
-  have hany : t'.chars.any E.U.isUppercase = t.chars.any E.U.isUppercase := by
-    rw [h.chars, List.any_append]
-    have : pc.any E.U.isUppercase = false := by
-      rw [List.any_eq_false]; intro c hc; simp [hup c hc]
-    rw [this, Bool.false_or]
   unfold Text.lower
-  rw [hany]
-  by_cases hu : t.chars.any E.U.isUppercase = true
-  · simp only [if_pos hu]
-    refine ⟨pc.map E.U.lower1, List.length_map _, ?_, ?_⟩
-    · simp only [h.chars, List.map_append]
-    · simp only [h.words, List.length_map]
-  · simp only [if_neg hu]
-    exact ⟨pc, rfl, h⟩
+  refine ⟨pc.map E.U.lower1, List.length_map _, ?_, ?_⟩
+  · simp only [h.chars, List.map_append]
+  · simp only [h.words, List.length_map]
 
 theorem setPos_pre {pc : List Nat} {t t' : Text} (h : SepPre pc t t') (E : Env) :
     SepPre pc (t.setPos E) (t'.setPos E) := by
